@@ -148,8 +148,10 @@ type TwoRun struct {
 	ResPatches   []Patch `json:"res_patches"`
 	TraceRetries int     `json:"trace_retries"` // extra trace executions needed to reproduce run 1's candidate list
 	Hung         bool    `json:"hung,omitempty"`
-	TraceAgrees  bool    `json:"trace_agrees"` // run 1 == choosePatches/computeVulnsResult on the traced inputs
-	BytesChanged bool    `json:"bytes_changed"`
+	// LoadInducedTimeout: the case missed the watchdog but returned within the confirmation deadline
+	LoadInducedTimeout bool `json:"load_induced_timeout,omitempty"`
+	TraceAgrees        bool `json:"trace_agrees"` // run 1 == choosePatches/computeVulnsResult on the traced inputs
+	BytesChanged       bool `json:"bytes_changed"`
 
 	Run2Err   string   `json:"run2_err,omitempty"`
 	A2        Analysis `json:"a2"`
@@ -302,11 +304,26 @@ func sortedCopy(xs []string) []string {
 }
 
 // runTwoRun executes the protocol. dir is a scratch directory owned by the caller.
-// hangs counts the cases whose protocol did not come back (their goroutines keep spinning).
+// hangs counts the cases confirmed (or, after the first confirmation, taken) not to come back;
+// their goroutines keep spinning.
 var hangs int
 
-// runTwoRun runs the protocol under a watchdog: a remediation call that does not return is
-// recorded (Hung) instead of stalling the harness.
+var (
+	watchdog        = 30 * time.Second
+	confirmDeadline = 10 * watchdog
+)
+
+// runTwoRun runs the protocol under a watchdog, so that a remediation call that does not return is
+// recorded instead of stalling the harness.
+//
+// Missing the 30 s watchdog only makes a case a CANDIDATE: on a starved machine a case that takes
+// milliseconds can miss it. The harness runs its cases one after the other, so nothing else of it
+// is running while it waits: the candidate is confirmed by letting this one execution go on, alone,
+// until ten times the watchdog (300 s). If it returns in that time the timeout was load-induced
+// (LoadInducedTimeout, counted in the evidence) and its results are used like any other case's.
+// Only an execution that is still not back after 300 s is reported (Hung). After the first confirmed
+// case the tree under test is known not to terminate on some inputs: further candidates are taken at
+// the plain watchdog, and after three the remaining cases of the run are skipped.
 func runTwoRun(u *Universe, o Opts, dir string, maxCands int) *TwoRun {
 	if hangs >= 3 {
 		return &TwoRun{Universe: u, Opts: o, TraceErr: "skipped: three earlier cases did not return"}
@@ -316,10 +333,18 @@ func runTwoRun(u *Universe, o Opts, dir string, maxCands int) *TwoRun {
 	select {
 	case tr := <-ch:
 		return tr
-	case <-time.After(30 * time.Second):
-		hangs++
-		return &TwoRun{Universe: u, Opts: o, Hung: true, Run1Err: "the two-run protocol did not return within 30 s"}
+	case <-time.After(watchdog):
 	}
+	if hangs == 0 {
+		select {
+		case tr := <-ch:
+			tr.LoadInducedTimeout = true
+			return tr
+		case <-time.After(confirmDeadline - watchdog):
+		}
+	}
+	hangs++
+	return &TwoRun{Universe: u, Opts: o, Hung: true, Run1Err: fmt.Sprintf("the two-run protocol did not return (watchdog %v, confirmation deadline %v for the first such case)", watchdog, confirmDeadline)}
 }
 
 func runTwoRunInner(u *Universe, o Opts, dir string, maxCands int) (tr *TwoRun) {
